@@ -43,10 +43,11 @@ def main():
     finally:
         sh('git -C /repo checkout -- .')
         sh('git -C /repo status --short')
+        sh('python3 -c "import vlib; vlib.refresh_tables()"')   # source-derived Lean tables back to the clean tree
     mp = os.path.join(d, 'meta.json')
     m = json.load(open(mp))
-    m['detected_by'] = results
-    m['ran'] = ['git -C /repo apply seeded/%s/patch.diff' % seed] + ['python3 check.py %s --tier quick' % p for p in props] + ['git -C /repo checkout -- .']
+    m['detected_by'] = dict((m.get('detected_by') or {}), **results)
+    m['ran'] = (m.get('ran') or []) + ['git -C /repo apply seeded/%s/patch.diff' % seed] + ['python3 check.py %s --tier quick' % p for p in props] + ['git -C /repo checkout -- .']
     json.dump(m, open(mp, 'w'), indent=1, ensure_ascii=False)
     return 0
 
